@@ -47,6 +47,10 @@ def load(data, medium, loop, loader=None, how='unbundle'):
     ProcessClass.recreate_from(bundle, ctx) and ProcessClass.recreate_from(bundle) with the optional context left out
     (then the current event loop and the recorded / default loader are used)."""
     bundle = decode(data, medium)
+    return load_bundle(bundle, loop, loader, how)
+
+
+def load_bundle(bundle, loop, loader=None, how='unbundle'):
     ctx = persistence.LoadSaveContext(loop=loop, loader=loader) if loader is not None else persistence.LoadSaveContext(loop=loop)
     if how == 'unbundle':
         return bundle.unbundle(ctx)
